@@ -79,9 +79,9 @@ template<int P> struct Job {
   void operator()() const { __sync_fetch_and_add(ctr, 1); }
 };
 #define NCLS 6
-#define CLS(X) X(1) X(40) X(100) X(200) X(300) X(600)
+#define CLS(X) X(0, 1) X(1, 40) X(2, 100) X(3, 200) X(4, 300) X(5, 600)
 static const size_t g_sizes[NCLS] = {
-#define SZ(P) sizeof(mtbb::callable_task<Job<P> >),
+#define SZ(I, P) sizeof(mtbb::callable_task<Job<P> >),
   CLS(SZ)
 #undef SZ
 };
@@ -130,7 +130,7 @@ static void run_tg(int W, std::vector<std::string> & ops) {
       int k = atoi(ops[i].c_str() + 1);
       int * c = &(*ctrs)[ntask++];
       switch (k) {
-#define RUN(P) case __COUNTER__: { Job<P> j; j.ctr = c; memset(j.pad, 0x5a, sizeof j.pad); tg.run(j); break; }
+#define RUN(I, P) case I: { Job<P> j; j.ctr = c; memset(j.pad, 0x5a, sizeof j.pad); tg.run(j); break; }
         CLS(RUN)
 #undef RUN
         default: emit_and_exit("badcase\n", 0);
